@@ -12,6 +12,8 @@ RING_BUFFER_API(u32_ring, uint32_t)
 RING_BUFFER_ITER_API(u32_ring, uint32_t)
 RING_BUFFER_API(s16_ring, int16_t)
 RING_BUFFER_ITER_API(s16_ring, int16_t)
+RING_BUFFER_API(f64_ring, double)
+RING_BUFFER_ITER_API(f64_ring, double)
 #ifdef __cplusplus
 }
 #endif
